@@ -54,6 +54,7 @@ type Case struct {
 	Alone       bool `json:",omitempty"` // afterwards the first sub-app that has sub-apps of its own is also served directly
 	RootUnesc   bool `json:",omitempty"` // Config.UnescapePath of the root app (requests may spell a letter of the path as %XX)
 	TopDown     bool `json:",omitempty"` // mount each sub-app into its parent before its own children are mounted into it
+	Late        int  `json:",omitempty"` // the last Late top-level sub-apps are mounted after the root served a request, followed by RebuildTree
 }
 
 type cand struct {
@@ -250,7 +251,19 @@ func build(c Case) (*fiber.App, *run) {
 		}
 	}
 	routes(root)
-	mount(root, c.Tree)
+	if c.Late > 0 && c.Late < len(c.Tree) {
+		// the mount structure grows while the application is in service (dynamic registration): the request is
+		// served by the structure that exists when it arrives
+		mount(root, c.Tree[:len(c.Tree)-c.Late])
+		vk.Do(root, "GET", "/warm-up")
+		for k := range r.calls {
+			delete(r.calls, k)
+		}
+		mount(root, c.Tree[len(c.Tree)-c.Late:])
+		defer root.RebuildTree()
+	} else {
+		mount(root, c.Tree)
+	}
 	if c.CatchAll {
 		root.Use(func(fiber.Ctx) error { return c.raise() })
 	}
@@ -442,6 +455,9 @@ func genCase(t *rapid.T) Case {
 	c.ErrPos = rapid.IntRange(0, c.ChainLen).Draw(t, "errpos")
 	c.CatchAll = rapid.Bool().Draw(t, "catchall") && c.ErrKind != "fallthrough"
 	c.TopDown = rapid.Bool().Draw(t, "topdown")
+	if len(c.Tree) > 1 && rapid.IntRange(0, 2).Draw(t, "late") == 0 {
+		c.Late = rapid.IntRange(1, len(c.Tree)-1).Draw(t, "nlate")
+	}
 	c.Alone = rapid.IntRange(0, 2).Draw(t, "alone") == 0
 	c.Repeat = 8
 	if vk.Tier() == "thorough" {
